@@ -205,50 +205,59 @@ impl ast::IfStmt {
         }
     }
 
-    pub fn then_branch_block(&self) -> Option<ast::BlockExpr> {
-        match support::children(self.syntax()).nth(1)? {
-            ast::Expr::BlockExpr(block) => Some(block),
-            _ => None,
+    // The child nodes of an `if` statement are: the condition, the `if` body, and, if present,
+    // the `else` body. A body is either a block or a single statement.
+    fn body_at(&self, index: usize) -> Option<BlockOrStmt> {
+        let node = self.syntax().children().nth(index)?;
+        if let Some(block) = ast::BlockExpr::cast(node.clone()) {
+            Some(BlockOrStmt::BlockExpr(block))
+        } else {
+            ast::Stmt::cast(node).map(BlockOrStmt::Stmt)
         }
     }
 
-    // Hmm. Not sure why this is not `nth(1)`. (It is equivalent to `nth(0)`.)
+    pub fn then_branch_block(&self) -> Option<ast::BlockExpr> {
+        match self.body_at(1)? {
+            BlockOrStmt::BlockExpr(block) => Some(block),
+            BlockOrStmt::Stmt(_) => None,
+        }
+    }
+
     pub fn then_branch_stmt(&self) -> Option<ast::Stmt> {
-        support::child(&self.syntax)
+        match self.body_at(1)? {
+            BlockOrStmt::Stmt(stmt) => Some(stmt),
+            BlockOrStmt::BlockExpr(_) => None,
+        }
     }
 
     // This is the `if` body, corresponding to the condition evaluating true.
     pub fn true_body_block_or_stmt(&self) -> BlockOrStmt {
-        if let Some(body) = self.then_branch_block() {
-            BlockOrStmt::BlockExpr(body)
-        } else if let Some(stmt) = self.then_branch_stmt() {
-            BlockOrStmt::Stmt(stmt)
-        } else {
-            panic!("Error in oq3_syntax");
+        match self.body_at(1) {
+            Some(body) => body,
+            None => panic!("Error in oq3_syntax"),
         }
     }
 
     // Return `Some` if the else branch is present and is a curly-delimited block.
     pub fn else_branch_block(&self) -> Option<ast::BlockExpr> {
-        match support::children(self.syntax()).nth(2)? {
-            ast::Expr::BlockExpr(block) => Some(block),
-            _ => None,
+        match self.body_at(2)? {
+            BlockOrStmt::BlockExpr(block) => Some(block),
+            BlockOrStmt::Stmt(_) => None,
         }
     }
 
     // Return `Some` if the else branch is present and is a single statement.
     pub fn else_branch_stmt(&self) -> Option<ast::Stmt> {
-        support::child(&self.syntax)
+        match self.body_at(2)? {
+            BlockOrStmt::Stmt(stmt) => Some(stmt),
+            BlockOrStmt::BlockExpr(_) => None,
+        }
     }
 
     // This is the `else` body, corresponding to the condition evaluating false.
     // If there is no `else` body, return `None`.
     pub fn false_body_block_or_stmt(&self) -> Option<BlockOrStmt> {
-        if let Some(body) = self.else_branch_block() {
-            Some(BlockOrStmt::BlockExpr(body))
-        } else {
-            self.else_branch_stmt().map(BlockOrStmt::Stmt)
-        }
+        self.body_at(2)
     }
 
     // FIXME: this may have supported more than what is above.
